@@ -66,6 +66,41 @@ UpdFeats(fs, table, o) == IF fs = <<>> THEN <<>> ELSE UpdFeat(Head(fs), table, o
 Updated(t, table, o) ==
     [i \in 1..Len(t) |-> IF t[i].name = o.layer THEN [t[i] EXCEPT !.feats = UpdFeats(t[i].feats, table, o)] ELSE t[i]]
 
+(* THE PROPERTY leaves three details of the join open, and so does the relation used for judging (Updated above is the
+   implementation's choice among them, kept for the design-level check in MC_VT):
+     (a) a feature WITHOUT the id field may be kept, or -- when unmatched features are removed -- removed;
+     (b) of several table rows with the same id any one may win;
+     (c) a value taken from the table may be typed as text or as a number ("9" vs 9): only its text is compared. *)
+RowsFor(table, idtext) == {i \in 1..Len(table) : table[i].id = idtext}
+TableKeys(table) == UNION { {table[i].props[j][1] : j \in 1..Len(table[i].props)} : i \in 1..Len(table) }
+\* property sets agree: same keys, same texts; same types except for keys the table provides
+PropsAgree(got, want, tkeys) ==
+    /\ {p[1] : p \in got} = {p[1] : p \in want}
+    /\ \A p \in got : \E q \in want : p[1] = q[1] /\ p[2][2] = q[2][2] /\ (p[2][1] = q[2][1] \/ p[1] \in tkeys)
+SameButProps(f, g) == f.id = g.id /\ f.gt = g.gt /\ f.geom = g.geom
+MayRemove(f, table, o) ==
+    o.remove = 1 /\ (~PropHas(f.props, o.idfield) \/ RowsFor(table, ValText(PropGet(f.props, o.idfield))) = {})
+\* g is an admissible result for f
+MayBecome(f, g, table, o) ==
+    /\ SameButProps(f, g)
+    /\ LET rows == IF PropHas(f.props, o.idfield) THEN RowsFor(table, ValText(PropGet(f.props, o.idfield))) ELSE {} IN
+       IF rows = {} THEN PSet(g.props) = PSet(f.props)                 \* untouched
+       ELSE \E r \in rows :
+               PropsAgree(PSet(g.props),
+                          IF o.replace = 1 THEN PSet(table[r].props) ELSE PSet(PropUpdate(f.props, table[r].props)),
+                          TableKeys(table))
+RECURSIVE MatchFeats(_, _, _, _)
+MatchFeats(fs, us, table, o) ==
+    IF fs = <<>> THEN us = <<>>
+    ELSE \/ MayRemove(Head(fs), table, o) /\ MatchFeats(Tail(fs), us, table, o)
+         \/ us # <<>> /\ MayBecome(Head(fs), Head(us), table, o) /\ MatchFeats(Tail(fs), Tail(us), table, o)
+UpdateOk(t, u, table, o) ==
+    /\ Len(u) = Len(t)
+    /\ \A i \in 1..Len(t) :
+          /\ u[i].name = t[i].name /\ u[i].extent = t[i].extent /\ u[i].version = t[i].version
+          /\ IF t[i].name = o.layer THEN MatchFeats(t[i].feats, u[i].feats, table, o)
+             ELSE NormFeats(u[i].feats) = NormFeats(t[i].feats)
+
 \* everything except the property sets of the named layer is untouched (a consequence of Updated, stated separately)
 OnlyPropsChanged(t, u, o) ==
     /\ Len(u) = Len(t)
@@ -96,8 +131,10 @@ UpdateFails(r) ==
     LET want == Updated(r.tile, r.table, r.opts) IN
     Fails("update_decodes", r.lookup.ok = 1 /\ r.stream.ok = 1) \cup
     (IF r.lookup.ok = 0 \/ r.stream.ok = 0 THEN {} ELSE
-     Fails("update_result", NormTile(r.lookup.tile) = NormTile(want)) \cup
-     Fails("update_stream", NormTile(r.stream.tile) = NormTile(want)) \cup
+     Fails("update_result", UpdateOk(r.tile, r.lookup.tile, r.table, r.opts)) \cup
+     Fails("update_stream", UpdateOk(r.tile, r.stream.tile, r.table, r.opts)) \cup
+     \* (the implementation's own choice among the open details; a difference is reported as an observation only)
+     Fails("update_model_choice", NormTile(r.lookup.tile) = NormTile(want)) \cup
      Fails("update_untouched", OnlyPropsChanged(r.tile, r.lookup.tile, r.opts)) \cup
      Fails("update_uncompressed", r.declared_tc = "none"))
 
